@@ -1674,8 +1674,8 @@ def selfcheck():
 
 
 SUBCHECKS = [
-    SubCheck('criteria', lambda: CRIT, run_criteria, quick=500, thorough=5130),
-    SubCheck('strictness', lambda: STRICT, _dev('strictness', run_strictness), quick=4000, thorough=41060),
-    SubCheck('ranking', lambda: RANK, _dev('ranking', run_ranking), quick=1800, thorough=18480),
-    SubCheck('statistics', lambda: STATS, run_statistics, quick=1200, thorough=12320),
+    SubCheck('criteria', lambda: CRIT, run_criteria, quick=500, thorough=10260),
+    SubCheck('strictness', lambda: STRICT, _dev('strictness', run_strictness), quick=4000, thorough=82120),
+    SubCheck('ranking', lambda: RANK, _dev('ranking', run_ranking), quick=1800, thorough=36960),
+    SubCheck('statistics', lambda: STATS, run_statistics, quick=1200, thorough=24640),
 ]
